@@ -11,6 +11,8 @@
 //         <file> yaml    parsed build_info=<0|1> ts=<k=v,...> keys=<k,...>
 //         <file> <kind>  reject            (Load returned false / YAML parse failed)
 //         <file> <kind>  CRASH sig=<n>|exit=<n>
+//   deptool info <builddir>
+//       schema_list / dictionary / prism / packs / dependencies as the compiled configs state them
 //   deptool dump <builddir> [<texts file: one text per line, extra reverse lookups>]
 //       canonical, timestamp-free content of every artefact (decompiled
 //       tables, prism spelling maps, reverse lookups, compiled YAML minus
@@ -269,7 +271,49 @@ static int dump(const string& dir, const char* texts_file) {
   return 0;
 }
 
+// ---------------------------------------------------------------- info
+// what the compiled configs say (the YAML parser as an external function):
+//   list <schema ids...>                                from default.yaml
+//   schema <file id> dict=<d|-> prism=<p|-> packs=<a,b|-> deps=<a,b|->
+static string join_list(rime::Config& c, const string& path) {
+  string out;
+  if (auto l = c.GetList(path)) {
+    for (auto it = l->begin(); it != l->end(); ++it) {
+      if (auto v = rime::As<rime::ConfigValue>(*it)) out += (out.empty() ? "" : ",") + v->str();
+    }
+  }
+  return out.empty() ? "-" : out;
+}
+
+static int info(const string& dir) {
+  for (const string& f : list_dir(dir)) {
+    if (!ends_with(f, ".yaml")) continue;
+    rime::Config c;
+    if (!c.LoadFromFile(rime::path(dir + "/" + f))) continue;
+    if (f == "default.yaml") {
+      string ids;
+      if (auto l = c.GetList("schema_list")) {
+        for (auto it = l->begin(); it != l->end(); ++it) {
+          auto m = rime::As<rime::ConfigMap>(*it);
+          if (!m) continue;
+          auto v = m->GetValue("schema");
+          if (v) ids += (ids.empty() ? "" : " ") + v->str();
+        }
+      }
+      printf("list %s\n", ids.c_str());
+    } else if (ends_with(f, ".schema.yaml")) {
+      string d, p;
+      bool hd = c.GetString("translator/dictionary", &d);
+      bool hp = c.GetString("translator/prism", &p);
+      printf("schema %s dict=%s prism=%s packs=%s deps=%s\n", f.substr(0, f.size() - 12).c_str(), hd ? d.c_str() : "-",
+             hp ? p.c_str() : "-", join_list(c, "translator/packs").c_str(), join_list(c, "schema/dependencies").c_str());
+    }
+  }
+  return 0;
+}
+
 int main(int argc, char** argv) {
+  if (argc == 3 && !strcmp(argv[1], "info")) return info(argv[2]);
   if (argc == 3 && !strcmp(argv[1], "probe-all")) return probe_all(argv[2]);
   if ((argc == 3 || argc == 4) && !strcmp(argv[1], "dump")) return dump(argv[2], argc == 4 ? argv[3] : nullptr);
   fprintf(stderr, "usage: deptool probe-all|dump <builddir>\n");
